@@ -43,7 +43,9 @@ type c02Case struct {
 
 func c02Run(r *core.Run) {
 	t := r.T
-	w := world.NewWorld(t, world.Cfg{Processor: 1, NoPCS: true, AuthLen: []int{0, -1, 33}[t.Draw(3)]})
+	// the world has a PCS (every fetch takes simulated time): rejected chains are also verified with
+	// collateral checking on, where the genuine collateral of the trusted hierarchy is there to be had
+	w := world.NewWorld(t, world.Cfg{Processor: 1, NetLat: 1 + t.Draw(7), AuthLen: []int{0, -1, 33}[t.Draw(3)]})
 	A := w.A
 	B := world.NewPKI(t, "B", w.Epoch, A) // look-alike: same names, serials, validity, key ids; other keys
 	if t.Bool() {
@@ -278,8 +280,17 @@ func c02Run(r *core.Run) {
 		if c.expect != world.MustAccept {
 			r.Fault("pki:"+kind, true)
 		}
-		for i, oc := range []core.Outcome{o, o2} {
-			form := []string{"RawTdxQuote", "TdxQuote(message)"}[i]
+		outs, forms := []core.Outcome{o, o2}, []string{"RawTdxQuote", "TdxQuote(message)"}
+		if c.expect == world.MustReject && !strings.HasPrefix(c.name, "now-unset:") {
+			// a chain that is not anchored is not anchored with collateral checking on either — while the
+			// (slow) downloads of the trusted hierarchy's genuine collateral succeed
+			outs = append(outs, verifyRaw(raw, mkOpts(O1, w.PCS, c.pool, w.Times)))
+			forms = append(forms, "RawTdxQuote with collateral checking")
+			r.Eval()
+			r.Probe("rejected_chain_with_collateral_checking_on_slow_network")
+		}
+		for i, oc := range outs {
+			form := forms[i]
 			switch {
 			case c.expect == world.MustReject && oc.Accepted():
 				r.Violate("C02:accepted:"+c.name, "%s accepted by %s although %s", c.name, form, c.why)
@@ -447,6 +458,9 @@ func c02RootOfTrust(r *core.Run, w *world.World, A, B, C *world.PKI, qA, qB *wor
 				allUsable = false
 			}
 		}
+		// the other root-of-trust settings do not change which roots are trusted
+		rot.GetCollateral = t.Bool()
+		rot.CheckCrl = rot.GetCollateral && t.Bool()
 		var opts *verify.Options
 		oc := core.Call(func() error {
 			var err error
@@ -484,6 +498,7 @@ func c02RootOfTrust(r *core.Run, w *world.World, A, B, C *world.PKI, qA, qB *wor
 			}
 			o := *opts
 			o.Now = timeSet(w.Times)
+			o.GetCollateral, o.CheckRevocations = false, false // anchoring only
 			out := verifyRaw(q.Bytes(), &o)
 			r.Eval()
 			trusted := contains(listed, x)
@@ -492,6 +507,23 @@ func c02RootOfTrust(r *core.Run, w *world.World, A, B, C *world.PKI, qA, qB *wor
 			}
 			if !out.Accepted() && trusted && allUsable {
 				r.Violate("C02:rot-listed-root-not-trusted", "%s: quote under listed PKI %s rejected: %s", name, x, out.ErrText())
+			}
+		}
+		// Intel's own sample quote chains to the embedded Intel root: trusted by the empty configuration only
+		{
+			o := *opts
+			o.Now = timeSet(refTimes())
+			o.GetCollateral, o.CheckRevocations = false, false
+			out := verifyRaw(testdata.RawQuote, &o)
+			r.Eval()
+			if nonEmptyCfg && out.Accepted() {
+				r.Violate("C02:rot-accepted-unlisted-root", "%s (get_collateral=%v check_crl=%v): Intel's sample quote (under the embedded Intel root) accepted, but the configuration lists only %q", name, rot.GetCollateral, rot.CheckCrl, listed)
+			}
+			if !nonEmptyCfg && !out.Accepted() {
+				r.Count("control_failed", 1)
+			}
+			if nonEmptyCfg && rot.GetCollateral {
+				r.Probe("own_roots_with_get_collateral")
 			}
 		}
 		if !nonEmptyCfg {
@@ -563,6 +595,6 @@ func init() {
 			return 96
 		},
 		Run:       c02Run,
-		MustProbe: []string{"foreign_chain_not_yet_valid", "lookalike_own_key_ids", "lookalike_same_key_ids", "root_of_trust_configs", "empty_config_uses_embedded_root", "intel_lookalike_root", "foreign_chain_with_unusual_certificate", "pck_named_leaf_without_sgx_extension"},
+		MustProbe: []string{"foreign_chain_not_yet_valid", "lookalike_own_key_ids", "lookalike_same_key_ids", "root_of_trust_configs", "empty_config_uses_embedded_root", "intel_lookalike_root", "foreign_chain_with_unusual_certificate", "pck_named_leaf_without_sgx_extension", "own_roots_with_get_collateral", "rejected_chain_with_collateral_checking_on_slow_network"},
 	})
 }
